@@ -401,6 +401,20 @@ func pushPolicy(id int) stackage.PushPolicy {
 	}
 }
 
+// unmarshalerFor ids (shared with the Lean driver's `umfResult`): every id returns the slice ["U", id]; id 3 returns it
+// together with an error (class 204). 0 = no closure.
+func unmarshalerFor(id int) stackage.Unmarshaler {
+	if id == 0 {
+		return nil
+	}
+	return func(...any) ([]any, error) {
+		if id == 3 {
+			return []any{"U", id}, errOf(204)
+		}
+		return []any{"U", id}, nil
+	}
+}
+
 func polRejects(id int, v any) bool {
 	switch id {
 	case 1:
@@ -753,6 +767,9 @@ func BuildStack(v V) stackage.Stack {
 	if v.Cfg.Rpf != 0 {
 		s.SetPresentationPolicy(closureFor(reflect.TypeOf(stackage.PresentationPolicy(nil)), v.Cfg.Rpf).Interface().(stackage.PresentationPolicy))
 	}
+	if v.Cfg.Umf != 0 {
+		s.SetUnmarshaler(unmarshalerFor(v.Cfg.Umf))
+	}
 	if v.Cfg.Opt&fNNest != 0 {
 		s.SetNoNesting(true)
 	}
@@ -800,6 +817,9 @@ func BuildCond(v V) stackage.Condition {
 	}
 	if cf.Rpf != 0 {
 		c.SetPresentationPolicy(closureFor(reflect.TypeOf(stackage.PresentationPolicy(nil)), cf.Rpf).Interface().(stackage.PresentationPolicy))
+	}
+	if cf.Umf != 0 {
+		c.SetUnmarshaler(unmarshalerFor(cf.Umf))
 	}
 	if cf.Err != 0 {
 		c.SetErr(errOf(cf.Err))
